@@ -17,6 +17,8 @@ var (
 	// produce an invalid result. In Golang, floating point division
 	// by zero produces +Inf, and modulo by zero produces NaN.
 	ErrDivideByZero = fmt.Errorf("%w: division by zero", ErrPanic)
+	// ErrRangeValue is returned when a step range has a step of 0.
+	ErrRangeValue = fmt.Errorf("%w: bad range value", ErrPanic)
 	// ErrBadRepetition is returned when the right-hand side of the array
 	// repetition operator is invalid; i.e. negative or not an integer.
 	ErrBadRepetition = fmt.Errorf("%w: bad repetition count", ErrPanic)
@@ -257,6 +259,9 @@ func (vm *VM) Run() error {
 			index := vm.popNumVal()
 			step := vm.popNumVal()
 			stop := vm.popNumVal()
+			if step == 0 {
+				return fmt.Errorf("%w: step cannot be 0, infinite loop", ErrRangeValue)
+			}
 			// stack overflow wont happen because we just popped these values
 			_ = vm.push(stop)
 			_ = vm.push(step)
